@@ -150,3 +150,53 @@ pub fn be_lt(a: &[u8], b: &[u8]) -> bool {
 /// library's `char()` at start-up.
 pub const R_HEX: &str = "73eda753299d7d483339d80809a1d80553bda402fffe5bfeffffffff00000001";
 pub const Q_HEX: &str = "1a0111ea397fe69a4b1ba7b6434bacd764774b84f38512bf6730d2a0f6b0f6241eabfffeb153ffffb9feffffffffaaab";
+
+
+// ---------------------------------------------------------------- CPU knob
+
+use std::sync::atomic::{AtomicUsize, Ordering as AOrd};
+static KNOB_FIRST: AtomicUsize = AtomicUsize::new(0);
+static KNOB_CPUS: AtomicUsize = AtomicUsize::new(0);
+
+extern "C" {
+    fn sched_setaffinity(pid: i32, cpusetsize: usize, mask: *const u64) -> i32;
+}
+
+/// Confine this process to `k` CPUs starting at `first` (wrapping at the number of CPUs it may use now):
+/// what `std::thread::available_parallelism()` reports is a knob of the environment a library may read;
+/// the simulator sets it per process and records it in replay files. k = 0: leave everything as it is.
+pub fn set_cpu_knob(first: usize, k: usize) {
+    if k == 0 {
+        return;
+    }
+    let n = std::thread::available_parallelism().map(|x| x.get()).unwrap_or(1);
+    if n <= k {
+        return;
+    }
+    let mut mask = [0u64; 16];
+    for j in 0..k {
+        let c = (first + j) % n;
+        mask[c / 64] |= 1u64 << (c % 64);
+    }
+    let rc = unsafe { sched_setaffinity(0, std::mem::size_of_val(&mask), mask.as_ptr()) };
+    if rc == 0 {
+        KNOB_FIRST.store(first, AOrd::Relaxed);
+        KNOB_CPUS.store(k, AOrd::Relaxed);
+    }
+}
+/// (first, k) if the knob is set
+pub fn cpu_knob() -> Option<(usize, usize)> {
+    let k = KNOB_CPUS.load(AOrd::Relaxed);
+    if k == 0 {
+        None
+    } else {
+        Some((KNOB_FIRST.load(AOrd::Relaxed), k))
+    }
+}
+/// add the knob to a replay / result object
+pub fn with_knob(mut j: crate::json::J) -> crate::json::J {
+    if let Some((f, k)) = cpu_knob() {
+        j.put("cpus", crate::json::J::Arr(vec![crate::json::J::u(f), crate::json::J::u(k)]));
+    }
+    j
+}
